@@ -95,6 +95,14 @@ pub enum Error {
     InitNotAKnownValue { path_hint: String, init: String },
     #[error("at path {path_hint:?}: value not within bounds")]
     ValueNotWithinBounds { path_hint: String },
+    #[error("at path {path_hint:?}: wrong array length: expected {}, found {}", .expected, .found)]
+    WrongArrayLength {
+        path_hint: String,
+        expected: usize,
+        found: usize,
+    },
+    #[error("at path {path_hint:?}: anon map size not within bounds")]
+    AnonMapSizeNotWithinBounds { path_hint: String },
     #[error("at path {path_hint:?}: exactly one variant value must be present, found {}", .num_variant_values_found)]
     ExactlyOneVariantValueRequired {
         path_hint: String,
